@@ -785,6 +785,31 @@ def slice_c06():
                        and at('double_sum_D') == ['2 * np.sum(D, axis=-1)[:, None]']
                        and at('cumsum_D') == ['np.cumsum(np.insert(D[:, 0:-1], 0, 0, axis=-1) + np.flip(D, axis=-1), axis=-1)'],
                        'S1 is computed as 2 x sum(D) - cumsum(insert(D, 0, 0)[:-1] + flip(D)) with D the squared lengths padded by one zero (GModel.Traj.s1)')
+    # the transform length: `np.fft.fft(pos, n=<expr in n_times>, axis=-2)`, inverse transform of the same length, first n_times lags kept
+    fft_calls = [n for n in ast.walk(fn) if isinstance(n, ast.Call) and ast.unparse(n.func) == 'np.fft.fft']
+    ifft_calls = [n for n in ast.walk(fn) if isinstance(n, ast.Call) and ast.unparse(n.func) == 'np.fft.ifft']
+    if len(fft_calls) != 1 or len(ifft_calls) != 1:
+        raise Untranslatable('mean_squared_displacement: expected exactly one np.fft.fft and one np.fft.ifft call')
+    nkw = {k.arg: k.value for k in fft_calls[0].keywords}
+    ikw = {k.arg: k.value for k in ifft_calls[0].keywords}
+    if 'n' not in nkw or len(fft_calls[0].args) != 1:
+        raise Untranslatable('np.fft.fft(pos, n=...) without an explicit transform length')
+    if 'n' in ikw and ast.unparse(ikw['n']) != ast.unparse(nkw['n']):
+        raise Untranslatable('inverse transform of a different length')
+    if len(ifft_calls[0].args) != 1:
+        raise Untranslatable('np.fft.ifft with positional length')
+
+    def nat_expr(node):
+        if isinstance(node, ast.Name) and node.id == 'n_times':
+            return 'n_times'
+        if isinstance(node, ast.Constant) and isinstance(node.value, int) and node.value >= 0:
+            return str(node.value)
+        if isinstance(node, ast.BinOp) and isinstance(node.op, (ast.Add, ast.Sub, ast.Mult)):
+            op = {ast.Add: '+', ast.Sub: '-', ast.Mult: '*'}[type(node.op)]
+            return f'({nat_expr(node.left)} {op} {nat_expr(node.right)})'
+        raise Untranslatable('transform length: ' + ast.unparse(node))
+    out += ('\n/-- trajectory.py mean_squared_displacement: length of the zero-padded transform, `np.fft.fft(pos, n=…)` -/\n'
+            f'def msdFftLength (n_times : Nat) : Nat :=\n  {nat_expr(nkw["n"])}\n')
     sl = Slice(['S1', 'S2'], inputs={'S1', 'S2'})
     msd = next((n.value for n in fn.body if isinstance(n, ast.Assign) and ast.unparse(n.targets[0]) == 'msd'), None)
     if msd is None and isinstance(fn.body[-1], ast.Return):
